@@ -16,6 +16,7 @@ import enum
 import itertools
 import json
 import os
+import re
 import sys
 import uuid
 import zlib
@@ -149,7 +150,7 @@ def unsnap(s):
 
 def short(v, raw=False, limit=48):
     r = v if raw else repr(v)
-    r = r.replace("\n", "\\n")
+    r = re.sub(r" at 0x[0-9a-fA-F]+", "", r.replace("\n", "\\n"))
     if len(r) > limit:
         r = r[: limit - 10] + "~" + format(zlib.crc32(r.encode("utf-8", "backslashreplace")) & 0xFFFFFFFF, "08x")
     return r
@@ -342,6 +343,11 @@ def wrap(kind, inner: List[TS], thorough, aux=None):
         hint = Union[tuple(x.hint for x in inner)]
         vals = UNION_VALS if d == 1 else uniq([v for x in inner for v in x.core] + ["1", 1, None, "null", "x"])
         cores = uniq([v for x in inner for v in x.core[:2]] + ["1", None])
+        if any(x.name == "str" for x in inner):
+            # an object whose serialisation is a string (enum member, timedelta, complex ...) cannot be told from that string in a
+            # Union with str; whether that is covered by the statement is unclear, so such inputs are not generated (see report)
+            vals = [v for v in vals if jsonable(v) or isinstance(v, (tuple, set, list, dict))]
+            cores = [v for v in cores if jsonable(v) or isinstance(v, (tuple, set, list, dict))]
         return TS("Union[" + ",".join(x.name for x in inner) + "]", hint, vals, cores, inner[0].canon if inner[0].canon is not None else inner[1].canon, d, kind)
     if kind == "List":
         vals = [[]] + [[v] for v in core] + [list(core[:2]), list(core[:3]), None, "x", 5, {"a": 1}] + ([core[0]] if core else [])
@@ -611,6 +617,8 @@ class Recorder:
             self.passed += 1
         else:
             self.fail_evals += 1
+            # class paths of the harness' own classes: the module prefix depends on how the harness was started
+            key = re.sub(r"(__main__|bounded\.b01_roundtrip|bounded\.b10_fixedpoint|bounded\.gen_d)\.", "", key)
             if key not in self.seen_keys:
                 self.seen_keys.add(key)
                 self.failed.append((key, what, case))
